@@ -19,6 +19,12 @@ def sec_get(ctx, i):
     yield from one(ctx.elf.get_section, i)
 
 
+@op('sec_get_typed')
+def sec_get_typed(ctx, i, types):
+    """get_section with its public `type` argument (a tuple of acceptable sh_type names)."""
+    yield from one(ctx.elf.get_section, i, tuple(types))
+
+
 @op('sec_by_name')
 def sec_by_name(ctx, name):
     yield from one(ctx.elf.get_section_by_name, name)
